@@ -2,7 +2,7 @@
 From BV Require Import Base.Prelude Model.Block Model.ForkDB Model.Forkable Model.ForkableLookups
   Model.Burst Model.Hub Model.CursorResolver Model.Joining
   Spec.Consumer Spec.Universe Check.Burst_Check Check.C07_Check Spec.C06_Spec Spec.C07_Spec Spec.C09_Spec
-  Spec.C07_Compose_Spec Proofs.C07_ComposeCheck Proofs.C07_Compose Proofs.C07_ComposeCursor Proofs.C07_FullRefuted.
+  Spec.C07_Compose_Spec Proofs.C07_ComposeCheck Proofs.C07_Compose Proofs.C07_ComposeCursor Proofs.C07_FullRefuted Proofs.C07_FilesFinal.
 Local Open Scope N_scope.
 
 (* number mode, default filter, no stop block: hub_agrees of C07_seamless_full discharged from the world *)
@@ -27,6 +27,11 @@ Print Assumptions c07_seamless_full_refuted.
 Theorem c07_files_agree_needed : C07_files_agree_needed.
 Proof. exact c07_files_agree_needed_proof. Qed.
 Print Assumptions c07_files_agree_needed.
+
+(* files_agree follows from the more familiar "every merged block is at or below the ready hub's LIB" *)
+Theorem c07_files_final_agree : C07_files_final_agree.
+Proof. exact c07_files_final_agree_proof. Qed.
+Print Assumptions c07_files_final_agree.
 
 (* ---- non-vacuity ---- *)
 
@@ -128,3 +133,8 @@ Proof.
         intros x [<-|[]]. vm_compute. reflexivity. }
   vm_compute. reflexivity.
 Qed.
+
+(* files_final holds in the example world for merged files up to block 13 (the hub's LIB when it becomes ready) *)
+Example c07_compose_nonvacuous_files_final :
+  files_final cx_c cx_w (filter (fun b => bnum b <? 14) cx_canon).
+Proof. apply files_final_b_sound. vm_compute. reflexivity. Qed.
